@@ -10,6 +10,7 @@ from rules import roles
 from engine.util import own_nodes, calls_with_nodes, where, optional_numeric_params, truthiness_uses
 
 RULES = {
+    "R-13.5": "an IXFR deletion removes exactly the addressed rdataset: the Version operations use every part of their (name, type, covers) key (C10 R-10.5 adopted)",
     "R-13.1": "no raise is reachable after the transfer's commit: inside Inbound.process_message, and in every driver after a process_message call that returned True",
     "R-13.2": "failure leaves the zone untouched: rollback in __exit__, rollback before the AXFR-style replacement writer, delete_exact for IXFR deletions, RFC 1982 serial comparison, out-of-zone names skipped, nothing applied after the final SOA",
     "R-13.4": "optional serial / timeout parameters of the transfer code are tested for presence by identity with None, never by truthiness (serial 0 is a valid base serial, reached after an RFC 1982 wrap)",
@@ -218,6 +219,7 @@ def run(model, rep, tier):
             rep.bad("R-13.4", f.qualname, where(f, n_), f"`{nm}` is an optional number and 0 is a legitimate value, but it is {how}: 0 is taken for 'absent' (an IXFR from serial 0 is refused)", stmt=f"presence {nm}")
     rep.floor("R-13.4-optional", n_opt, 1)
     rep.ok("R-13.4", "dns.xfr", "-", f"{n_opt} optional numeric parameters are only ever tested with `is None` / `is not None`", stmt="presence-tests")
+    rep.share(model, "C10", {"R-10.5"}, "R-13.5", "IXFR deletions address an rdataset by (name, rdtype, covers); a dropped component leaves stale RRSIGs in the zone")
     rep.meta["explanation"] = (
         "Commit-last typestate on the CFG of Inbound.process_message and of every driver (with the boolean result propagated through the loop test), "
         "plus dominance rules for the guards that must precede any zone mutation. Convergence to the server's version for all streams is NOT decided.")
@@ -234,6 +236,9 @@ def _blocks(fn):
 
 
 WITNESSES = [
+    {"id": "c13-delete-rdataset-ignores-covers", "rule": "R-13.5", "file": "dns/zone.py", "expect": "fires",
+     "old": "        node, name = self._maybe_cow_with_name(name)\n        node.delete_rdataset(self.zone.rdclass, rdtype, covers)\n        if len(node) == 0:\n            del self.nodes[name]\n\n\n@dns.immutable.immutable",
+     "new": "        node, name = self._maybe_cow_with_name(name)\n        node.delete_rdataset(self.zone.rdclass, rdtype)\n        if len(node) == 0:\n            del self.nodes[name]\n\n\n@dns.immutable.immutable"},
     {"id": "c13-serial-zero-taken-for-absent", "rule": "R-13.4", "file": "dns/xfr.py", "expect": "fires",
      "old": "            if serial is None:\n                raise ValueError(\"a starting serial must be supplied for IXFRs\")", "new": "            if not serial:\n                raise ValueError(\"a starting serial must be supplied for IXFRs\")"},
     {"id": "c13-commit-in-loop", "rule": "R-13.1", "file": "dns/xfr.py", "expect": "fires",
